@@ -152,6 +152,21 @@ def check_catalog_pair(run, truth, slabs, cleaned, on, off, desc, lc=False):
                     i = np.argwhere(~okq)[0][0]
                     bad('principal-dispersions-not-in-sigmav3d-units', col, i, conversion=which, sum_of_squares=float(lhs[i]), sigmav3d_squared=float(s3[i] ** 2))
                     break
+            # absolute: Mid^2 = sigmav3d^2 (1 - rmin^2 - rmax^2) from the stored values alone (also when Min / Maj were not requested)
+            rmin = raw(f'sigmavMin_to_sigmav3d{com}_i16').astype(np.float64) / 32000
+            rmax = raw(f'sigmavMax_to_sigmav3d{com}_i16').astype(np.float64) / 32000
+            s3raw = raw('sigmav3d' + com).astype(np.float64)
+            resid = 1 - rmin**2 - rmax**2
+            for arr, fac_, which in ((a_off, 1.0, 'off'), (a_on, velz, 'on')):
+                exp2 = (s3raw * fac_) ** 2 * resid
+                sure = resid >= 1e-3
+                got2 = np.asarray(arr, dtype=np.float64) ** 2
+                okm = (np.abs(got2 - exp2) <= 1e-4 * (s3raw * fac_) ** 2 + 1e-30) | ~sure
+                run.count('mid_absolute_rows', int(sure.sum()))
+                if not np.all(okm[~np.isnan(got2)]) or np.isnan(got2[sure]).any():
+                    i = int(np.argwhere(~okm | (np.isnan(got2) & sure))[0][0])
+                    bad('principal-dispersions-not-in-sigmav3d-units', col, i, conversion=which, mid_squared=float(got2[i]), expected_from_stored_ratios=float(exp2[i]))
+                    break
             # on = off * velocity factor where defined; Mid is a square root of a difference of float32
             # squares, so compare the squares against the scale of sigmav3d^2 (cancellation-safe)
             d = ~np.isnan(a_on) & ~np.isnan(a_off)
@@ -202,8 +217,11 @@ def check(run):
                 desc = dict(tree=k, cleaned=cleaned, layout='light_cone' if lc else 'box', fields='all')
                 run.progress(desc)
                 kw = dict(fields='all') if lc else dict(fields='all', cleaned=cleaned)
-                on, e1 = catoracle.load(T['path'], convert_units=True, **kw)
-                off, e2 = catoracle.load(T['path'], convert_units=False, **kw)
+                # the flag as a bool, or as the 0 / 1 / numpy bool a caller's comparison or config file produces
+                t_on, t_off = [(True, False), (1, 0), (np.True_, np.False_), (np.bool_(box > 0), np.bool_(box < 0))][(k + int(cleaned)) % 4]
+                desc['flag_types'] = [type(t_on).__name__, type(t_off).__name__]
+                on, e1 = catoracle.load(T['path'], convert_units=t_on, **kw)
+                off, e2 = catoracle.load(T['path'], convert_units=t_off, **kw)
                 run.ev(2)
                 if e1 or e2:
                     run.violation('units-load-fails', dict(error=str(e1 or e2)[:200], **desc))
@@ -213,7 +231,9 @@ def check(run):
                     run.sample(dict(desc, BoxSize=box, VelZSpace_to_kms=velz, columns=len(on.halos.colnames), rows=len(on.halos)))
                 # single-column loads of the ratio / derived columns
                 names = [c for c in on.halos.colnames if classify_column(c)[0] in ('ratio_vel', 'mid', 'ratio_len', 'ratio_len3', 'sigman')]
-                for c in [names[int(j)] for j in rng.choice(len(names), min(len(names), 4 if run.quick else 12), replace=False)]:
+                alone = [names[int(j)] for j in rng.choice(len(names), min(len(names), 4 if run.quick else 12), replace=False)]
+                alone += [c for c in names if c.startswith('sigmavMid') and c not in alone]  # the column computed from two others that are then only temporaries
+                for c in alone:
                     kw1 = dict(fields=[c]) if lc else dict(fields=[c], cleaned=cleaned)
                     o1, e1 = catoracle.load(T['path'], convert_units=True, **kw1)
                     o0, e2 = catoracle.load(T['path'], convert_units=False, **kw1)
